@@ -20,7 +20,8 @@ RULE = ("names: description = prefix (Ethernet, Eth, Gi, GigabitEthernet, Port-c
         "pair with a numeric tie-break beyond the first component; range with an interval of width>=2 or >=3 parts. "
         "Only ASCII digits are generated (the code's \\d / str.isdigit / int() also accept other Unicode decimal digits; the "
         "model does not). Digit runs have at most 5 digits and an interval spans at most 400 values (run-time bound: __hash__ is (idx+1)**value). Whitespace inside names is one of ' ', TAB, NBSP.")
-LEVEL_TEXT = ("Theorems (Lean 4, all inputs): parse(render d) = d for every well-formed description; same-shape interfaces "
+LEVEL_TEXT = ("Theorems (Lean 4, all inputs): parse(render d) = d for every well-formed description, and parse(render(parse s)) = parse s "
+              "for every accepted text s; same-shape interfaces "
               "order by their numeric components and never raise; == implies equal hash and neither < nor >; an accepted range "
               "text (hyphenated prefixes such as Port-channel1-3 included since fix f223496) expands to the begin object with its "
               "last numeric component varied over the denoted integers, each once, ascending; readers leave the data unchanged. "
@@ -342,6 +343,8 @@ def buckets(case, ans):
         if case.get("base"):
             out.append("iter:" + ("chan" if case["base"]["chan"] is not None else "sub" if case["base"]["sub"] is not None else "port"))
             out.append("members:%s" % min(50, len(case["values"]) // 5 * 5))
+        if case.get("base"):
+            out.append("range-prefix-hyphen:%s" % ("-" in case["base"]["prefix"]))
         out.append("parts:%d" % min(9, case["text"].count(",") + 1))
     return out
 
